@@ -7,7 +7,7 @@ git -C /repo diff --quiet || { echo "/repo is dirty"; exit 2; }
 rm -rf build/evidence.keep; cp -r evidence build/evidence.keep
 for B in $LIST; do
   git -C /repo apply $PWD/seeded/benign/$B.diff || { echo "$B: patch does not apply"; continue; }
-  mkdir -p build/benign/$B
+  mkdir -p build/benign/$B; rm -f build/benign/$B/rc.txt
   PROPS=$(python3 -c "import json;print(' '.join(c['property_id'] for c in json.load(open('MANIFEST.json'))['checks']))")
   printf '%s\n' $PROPS | xargs -P 6 -I{} bash -c "VERIF_SEED=1 ./check {} --tier quick > build/benign/$B/{}.log 2>&1; echo \"{} rc=\$?\" >> build/benign/$B/rc.txt"
   git -C /repo checkout -- .
